@@ -231,12 +231,12 @@ def spec_pool(tier, primary="C08"):
 
 
 FS_PROGS = {
-    "mutex": ["lu.tu.lu", "tlu.lu", "jx.xw.N", "wn.nw.z"],
-    "timed": ["lfu.tzu.fwn", "fu.lu.fu", "lu.f.f"],
-    "recursive": ["llu.lu.tu", "ltuu.lu", "llluuu.tlu.lu"],
-    "recursive_timed": ["lflu.fu.lu", "llu.f.tu"],
-    "shared": ["lu.sr.ysr.tu", "sr.lu.sr", "lu.lu.sr.sr", "ysr.tlu.sr"],
-    "shared_timed": ["lu.gr.fu.sr", "fu.gr.lu", "sr.fu.gr.lu"],
+    "mutex": ["lu.tu.lu", "tlu.lu", "jx.xw.N", "wn.nw.z", "lnu.lnu.tnu"],
+    "timed": ["lfu.tzu.fwn", "fu.lu.fu", "lu.f.f", "lnu.fnu.lnu"],
+    "recursive": ["llu.lu.tu", "ltuu.lu", "llluuu.tlu.lu", "lnlnuu.lnu.tnu"],
+    "recursive_timed": ["lflu.fu.lu", "llu.f.tu", "lnu.fnu.lnfnuu"],
+    "shared": ["lu.sr.ysr.tu", "sr.lu.sr", "lu.lu.sr.sr", "ysr.tlu.sr", "lnu.snr.lnu", "snr.lnu.snr.tnu"],
+    "shared_timed": ["lu.gr.fu.sr", "fu.gr.lu", "sr.fu.gr.lu", "lnu.snr.lnu", "gnr.fnu.snr"],
 }
 
 
@@ -245,8 +245,8 @@ def spec_fsync(tier):
     return ConcSpec(
         name="FiberSync", scenario="fs", grid=grid,
         inv_props={}, primary="C18", mc_cfgs=[], paths_cfg=None, trace_cfg="FiberSync_Trace.cfg",
-        dfs_max=600, preempt=1,
-        rand_execs=250 if tier == "quick" else 3000, rand_grid=grid, tail_execs=0,
+        dfs_max=1500, preempt=2,
+        rand_execs=300 if tier == "quick" else 3000, rand_grid=grid, tail_execs=0,
         scen_keys=["lt", "progs"], trace_timeout=1500)
 
 
